@@ -59,6 +59,14 @@ def canon(n):
     if k == "DefaultStmt": return "default(" + ",".join(canon(c) for c in inner) + ")"
     if k == "ForStmt": return "for(" + ",".join(canon(c) if c.get("kind") else "_" for c in inner) + ")"
     if k in ("CXXConstructExpr", "CXXTemporaryObjectExpr") and len(inner) == 1: return canon(inner[0])
+    if k == "CXXTryStmt": return "try(" + ",".join(canon(c) for c in inner) + ")"
+    if k == "CXXCatchStmt": return "catch(" + ",".join(canon(c) for c in inner if c.get("kind") != "VarDecl") + ")"
+    if k == "UnresolvedMemberExpr":     # (clang's JSON gives no name for it: the source position of the member's token, resolved by the caller)
+        e = n.get("range", {}).get("end", {})
+        return "member(%s,@%s:%s)" % (canon(inner[0]) if inner else "this", e.get("offset", "?"), e.get("tokLen", "?"))
+    if k == "CXXDependentScopeMemberExpr": return "member(%s,%s)" % (canon(inner[0]) if inner else "this", n.get("member") or n.get("name") or "?")
+    if k == "StringLiteral": return "str(%s)" % n.get("value")
+    if k == "CXXOperatorCallExpr": return "opcall(" + ",".join(canon(c) for c in inner) + ")"
     if k == "WhileStmt": return "while(" + ",".join(canon(c) for c in inner) + ")"
     if k == "CallExpr": return "fcall(" + ",".join(canon(c) for c in inner) + ")"
     return "?" + str(k)
@@ -160,7 +168,7 @@ def generate(src, out_path):
         res.append((gname, term, why))
     # the three helpers the combinators of EncoderModel.v are written after: their bodies must be, statement for statement, these
     SHAPES = {"write_string": "decl(str_left=str);decl(size_left=size);while(lt(m_avail,size_left),{fcall(memcpy,m_p,str_left,m_avail);sub_assign(size_left,m_avail);add_assign(str_left,m_avail);call(update_buffer,m_avail);call(flush_buffer)});fcall(memcpy,m_p,str_left,size_left);call(update_buffer,size_left)",
-              "flush_buffer": "if(ne(m_p,m_buffer),{call(member(?CXXOperatorCallExpr,write),?CXXReinterpretCastExpr,sub(m_p,m_buffer));assign(m_p,m_buffer);assign(m_avail,BUFFER_SIZE)})"}
+              "flush_buffer": "if(ne(m_p,m_buffer),{call(member(opcall(operator->,m_cos),write),?CXXReinterpretCastExpr,sub(m_p,m_buffer));assign(m_p,m_buffer);assign(m_avail,BUFFER_SIZE)})"}
     for nm, want in SHAPES.items():
         o = [x for x in (objs if nm != "flush_buffer" else hashes.objs(os.path.join(src, "cdns_encoder.cpp"), "CDNS::CdnsEncoder::flush_buffer")) if x.get("kind") == "CXXMethodDecl" and x.get("name") == nm and any(c.get("kind") == "CompoundStmt" for c in x.get("inner", []))]
         got = body_canon(o[0]) if len(o) == 1 else "no (single) definition"
